@@ -22,6 +22,7 @@ class Run(object):
     self.lp = vloop.loop()
     self.net = simnet.new_net()
     self.net.kernel_connect_timeout = p.get('kernel_connect_timeout', 20.0)
+    self.net.reply_delay = p.get('reply_delay', 0)
     self.server_log = []
     H = stackharness.hello()
     world.SHIMS['aperture'].randint_domain = lambda a, b: [a]
@@ -56,6 +57,14 @@ class Run(object):
       self.lp.timer(p['down_at']).start(self._down)
     if p.get('up_at') is not None:
       self.lp.timer(p['up_at']).start(self._up)
+    self.up_times = {}
+    for ep, t in p.get('downs', {}).items():
+      self.lp.timer(t).start(lambda ep=int(ep): self.net.set_endpoint(self.addrs[ep], False, p.get('mode', 'refuse')))
+    for ep, t in p.get('ups', {}).items():
+      def up(ep=int(ep)):
+        self.net.set_endpoint(self.addrs[ep], True)
+        self.up_times[ep] = self.lp.now()
+      self.lp.timer(t).start(up)
     if p.get('close_at') is not None:
       self.lp.timer(p['close_at']).start(self._close)
     gevent.spawn(self._traffic)
@@ -81,15 +90,16 @@ class Run(object):
       if self.client is None and self.build_g.dead and self.build_g.successful():
         self.client = self.build_g.value
       if self.client is not None and self.closed_at is None:
-        arg = 'k%d' % k
-        rec = {'t': self.lp.now(), 'arg': arg, 'done_t': None, 'outcome': None, 'events': self.events}
-        try:
-          rec['ar'] = self.client.hi_async(arg)
-        except Exception as e:  # noqa
-          rec['ar'] = None
-          rec['outcome'] = 'raised:' + type(e).__name__
-          rec['done_t'] = self.lp.now()
-        self.calls.append(rec)
+        for j in range(self.p.get('concurrency', 1)):
+          arg = 'k%d.%d' % (k, j)
+          rec = {'t': self.lp.now(), 'arg': arg, 'done_t': None, 'outcome': None, 'events': self.events}
+          try:
+            rec['ar'] = self.client.hi_async(arg)
+          except Exception as e:  # noqa
+            rec['ar'] = None
+            rec['outcome'] = 'raised:' + type(e).__name__
+            rec['done_t'] = self.lp.now()
+          self.calls.append(rec)
       k += 1
       gevent.sleep(1.0)
 
@@ -168,8 +178,14 @@ class Run(object):
       periods.append((cur, self.horizon + 1))
     self.periods = periods
     others_up = p['endpoints'] > 1
+    if p.get('downs'):
+      # pair histories: the per-member routing is not observable from the API; the fail-fast clause is applied by the
+      # single-failure histories, here only "both reachable again => both carry traffic" is judged
+      periods_for_calls = []
+    else:
+      periods_for_calls = periods
     for c in self.calls:
-      inside = [pr for pr in periods if pr[0] + EPS < c['t'] < pr[1] - EPS]
+      inside = [pr for pr in periods_for_calls if pr[0] + EPS < c['t'] < pr[1] - EPS]
       if not inside:
         continue
       if self.closed_at is not None and c['t'] >= self.closed_at:
@@ -220,6 +236,18 @@ class Run(object):
         self.v('C09.not-resumed', '%s:%d became reachable at +%.2f; %s within %.0f s (connect attempts after: %s)'
                % (addr[0], addr[1], up - T0, 'no request reached it' if p['endpoints'] == 1 else 'it was not connected again', slack,
                   [round(t - T0, 2) for (t, out) in attempts if t >= up][:6]))
+    # two members failing with overlap, concurrent traffic: once both are reachable again both must carry traffic
+    if p.get('downs') and len(self.up_times) == len(self.addrs):
+      tstar = max(self.up_times.values()) + MAXI + 2.0
+      if tstar + 10.0 < self.horizon:
+        for i, a in enumerate(self.addrs):
+          got = [r for r in self.server_log if r.get('addr') == a and r.get('arg') and tstar <= r['time'] <= tstar + 10.0]
+          if not got:
+            self.v('C09.not-resumed', 'members went down at %r and were reachable again at %r; %s:%d received no request between +%.1f and +%.1f '
+                   'although %d calls are issued concurrently every second'
+                   % (p['downs'], dict((k, round(v - T0, 2)) for k, v in self.up_times.items()), a[0], a[1], tstar - T0, tstar + 10 - T0,
+                      p.get('concurrency', 1)), pair=True)
+            break
     # after Close(): no further connect attempts
     if self.closed_at is not None:
       late = [(round(t - T0, 2), a) for (t, a, cid, out) in self.net.connect_log if t > self.closed_at + EPS]
@@ -272,6 +300,14 @@ def histories(tier):
               continue
             out.append(dict(base, up_at=u + 0.0125))
       out.append({'stack': stack, 'endpoints': n, 'down_at': None, 'up_at': None, 'horizon': 40})
+    # two members down with overlap, recovering in either order, two concurrent calls per second
+    pts = [6.0, 9.0, 14.0, 22.0, 30.0] if tier == 'quick' else [6.0 + 2.5 * i for i in range(14)]
+    for (da, db) in ((2.25, 4.25), (4.25, 2.25)):
+      for ua in pts:
+        for ub in pts:
+          out.append({'stack': stack, 'endpoints': 2, 'concurrency': 3, 'reply_delay': 0.9, 'timeout': 2.0025, 'mode': 'refuse',
+                      'downs': {'0': da + 0.1, '1': db + 0.1}, 'ups': {'0': ua + 0.0125, '1': ub + 0.5125}, 'down_at': None, 'up_at': None,
+                      'horizon': 130})
       for c in ([x * 2.5 for x in range(1, 40)] if tier == 'thorough' else [5.0, 7.5, 12.5, 15.0, 25.0, 27.5, 35.0, 52.5]):
           out.append({'stack': stack, 'endpoints': n, 'down_at': 2.25, 'mode': 'refuse', 'up_at': None, 'close_at': c + 0.0125, 'horizon': 140})
           out.append({'stack': stack, 'endpoints': n, 'down_at': 0, 'mode': 'stall', 'up_at': None, 'close_at': c + 0.0125, 'horizon': 140})
